@@ -779,6 +779,19 @@ func eventLogConfig(c *an.Ctx) {
 			}
 			vals = append(vals, args[i].String())
 		}
+		// the total budget holds at least one line of the maximal length (a line is charged twice its length): the
+		// most recent loggable line can always be retained; swapped limits fail this
+		if len(args) >= 3 {
+			tot, okT := args[1].(*ssa.Const)
+			line, okL := args[2].(*ssa.Const)
+			fits := false
+			if okT && okL && tot.Value != nil && line.Value != nil {
+				tv, e1 := constant.Int64Val(constant.ToInt(tot.Value))
+				lv, e2 := constant.Int64Val(constant.ToInt(line.Value))
+				fits = e1 && e2 && tv >= 2*lv
+			}
+			c.Check(fits, "CFG", site.Parent(), site.Pos(), an.KeyOf(site.Parent(), "NewEventLogger-budget"), "the total budget passed to the constructor is at least twice the per-line limit (total first, per-line second: a maximal line, charged twice its length, fits)", "arguments "+strings.Join(vals, ", "))
+		}
 		c.Check(ok, "CFG", site.Parent(), site.Pos(), an.KeyOf(site.Parent(), "NewEventLogger-args"), "the event logger is constructed with positive constant limits (so key[:limit] is a legal slice)", "arguments "+strings.Join(vals, ", "))
 	}
 	c.Count("CFG", n)
